@@ -38,6 +38,18 @@ type serveWait struct {
 	mu   sync.Mutex
 	idle []*srvConn // request connections that are still usable
 	all  []*srvConn
+
+	classes map[string]int // request classes sent (what the dispatcher did after the broadcast)
+}
+
+func (b *serveWait) Classes() map[string]int {
+	b.mu.Lock()
+	defer b.mu.Unlock()
+	m := map[string]int{}
+	for k, v := range b.classes {
+		m[k] = v
+	}
+	return m
 }
 
 func (b *serveWait) Via() bool { return true }
@@ -84,40 +96,59 @@ func (b *serveWait) Wait(code byte) (pan bool, err error) {
 	return atomic.LoadInt32(&sc.pan) == 1 || (err != nil && atomic.LoadInt32(&sc.bad) == 1), err
 }
 
-// frame builds a well-formed request whose first byte is code (never shorter than the dispatcher needs).
-func frame(code byte, r *mrand.Rand) []byte {
+var hardVariant, slotVariant uint32
+
+// frame builds a request whose first byte is code, never shorter than the dispatcher indexes (shorter frames belong
+// to another property).  cls names the class of the request: what the dispatcher does with it after the broadcast.
+func frame(code byte, r *mrand.Rand) (f []byte, cls string) {
 	switch code {
 	case AgentMessageAddHardCert:
 		k := verifh.PoolKey(r.Intn(2), "ed25519")
-		if r.Intn(2) == 0 {
-			return ssh.Marshal(agentAddHardCertReq{KeyBlob: k.Pub.Marshal(), Comment: "verif"})
+		switch atomic.AddUint32(&hardVariant, 1) % 4 { // every variant in turn
+		case 0:
+			return ssh.Marshal(agentAddHardCertReq{KeyBlob: k.Pub.Marshal(), Comment: "verif"}), "addhard-wellformed"
+		case 1:
+			return append([]byte{code}, k.Pub.Marshal()...), "addhard-oldformat"
+		case 2:
+			return []byte{code}, "addhard-malformed" // neither format parses: the dispatcher ends the connection with an error
 		}
-		return append([]byte{code}, k.Pub.Marshal()...) // old format
+		g := make([]byte, 1+r.Intn(24))
+		r.Read(g)
+		return append([]byte{code}, g...), "addhard-malformed"
 	case AgentMessageReadSlot, AgentMessageAttestSlot:
-		return []byte{code, '9', 'a'}
+		if atomic.AddUint32(&slotVariant, 1)%2 == 0 {
+			return []byte{code}, "slot"
+		}
+		return []byte{code, '9', 'a'}, "slot"
+	case AgentMessageListSlots:
+		return []byte{code}, "slot"
 	case AgentMessageWait:
-		// a wait request for a code outside the table: dispatched, answered at once
-		return []byte{code, byte(40 + r.Intn(216))}
+		// a wait request for a code outside the table: dispatched, answered at once (a wait request that blocks is a
+		// registration step of the plan)
+		return []byte{code, byte(40 + r.Intn(216))}, "wait-answered"
 	case AgentMessageLock, AgentMessageUnlock:
-		return append([]byte{code}, ssh.Marshal(struct{ P string }{"pw"})...)
-	case AgentMessageListSlots, AgentMessageRequestIdentities, AgentMessageRequestV1Identities, AgentMessageRemoveAllIdentities:
-		return []byte{code}
+		return append([]byte{code}, ssh.Marshal(struct{ P string }{"pw"})...), "standard"
+	case AgentMessageRequestIdentities, AgentMessageRequestV1Identities, AgentMessageRemoveAllIdentities:
+		return []byte{code}, "standard"
 	case AgentMessageRemoveIdentity:
-		return append([]byte{code}, ssh.Marshal(struct{ B []byte }{verifh.PoolKey(0, "ed25519").Pub.Marshal()})...)
+		return append([]byte{code}, ssh.Marshal(struct{ B []byte }{verifh.PoolKey(0, "ed25519").Pub.Marshal()})...), "standard"
 	case AgentMessageSignRequest:
 		return append([]byte{code}, ssh.Marshal(struct {
 			B []byte
 			D []byte
 			F uint32
-		}{verifh.PoolKey(0, "ed25519").Pub.Marshal(), []byte("data"), 0})...)
+		}{verifh.PoolKey(0, "ed25519").Pub.Marshal(), []byte("data"), 0})...), "standard"
 	case AgentMessageAddIdentity, AgentMessageAddIDConstrained:
-		return []byte{code} // no body: refused by the agent library before any constraint parsing
+		return []byte{code}, "standard-refused" // no body: refused by the agent library before any constraint parsing
 	}
 	n := r.Intn(6)
-	f := make([]byte, 1+n)
+	f = make([]byte, 1+n)
 	f[0] = code
 	r.Read(f[1:])
-	return f
+	if int(code) < 40 {
+		return f, "forwarded"
+	}
+	return f, "forwarded-outside-table"
 }
 
 func (b *serveWait) Request(code byte, r *mrand.Rand) (pan bool, err error) {
@@ -137,9 +168,18 @@ func (b *serveWait) Request(code byte, r *mrand.Rand) (pan bool, err error) {
 		}
 	}()
 	sc.c.SetDeadline(time.Now().Add(25 * time.Second))
-	if err = verifh.WriteFrame(sc.c, frame(code, r)); err == nil {
+	fr, cls := frame(code, r)
+	if err = verifh.WriteFrame(sc.c, fr); err == nil {
 		_, err = verifh.ReadFrame(sc.c)
 	}
+	if err != nil {
+		cls += "/connection-ended"
+	} else {
+		cls += "/answered"
+	}
+	b.mu.Lock()
+	b.classes[cls]++
+	b.mu.Unlock()
 	if err != nil {
 		// the dispatcher gave up on this connection (after the broadcast); it is not reused
 		sc.c.Close()
@@ -209,7 +249,7 @@ func TestVerifWaitServe(t *testing.T) {
 		if !ok {
 			return nil, fmt.Errorf("shimagent.New returned %T", sa)
 		}
-		return &serveWait{srv: &server{ShimAgent: shim, remote: true}, shim: shim}, nil
+		return &serveWait{srv: &server{ShimAgent: shim, remote: true}, shim: shim, classes: map[string]int{}}, nil
 	}
 	sum, err := verifh.RunWaitPlan(mk)
 	if err != nil {
